@@ -12,7 +12,7 @@ TECHNIQUE = 'loop summaries (trip counts, guards, affine row indices, carried pl
 STEP = 'core::MarkovChain::step'
 
 
-def run_chain_loop(ctx, pfx, A, ev, chain0, nc, nd, sp, inlined_chain=None):
+def run_chain_loop(ctx, pfx, A, ev, chain0, nc, nd, sp, inlined_chain=None, out_pick=None, dim_terms=None, allow_error_exits=False):
     """obligations on a run_chain-shaped loop inside evaluation ev. chain0 = term of the chain place before the loop"""
     steps = ev.events(lambda e: e.key == STEP)
     loops = [ls for ls in ev.vf.loops if ls.kind == 'for' and any(e in ls.events for e in steps) and (not ls.ctx or inlined_chain is not None)]
@@ -23,7 +23,8 @@ def run_chain_loop(ctx, pfx, A, ev, chain0, nc, nd, sp, inlined_chain=None):
         return None
     ls = loops[0]
     it = ls.var
-    ctx.check(pfx + '.count', A, 'count', ls.n is T.add(nc, nd) and not ls.exits and ev.t(ls.elem) is it,
+    exits_ok = not ls.exits or (allow_error_exits and all(e[0] == 'return' and T.is_app(e[2], 'is:Err') for e in ls.exits))
+    ctx.check(pfx + '.count', A, 'count', ls.n is T.add(nc, nd) and exits_ok and ev.t(ls.elem) is it,
               expected='for k in 0..n_collect+n_discard, no other exit', found='n=%s, %d exits, elem=%s' % (show(ls.n), len(ls.exits), show(ev.t(ls.elem))), sp=ls.sp,
               why='exactly n_collect + n_discard transitions, no transition more than needed')
     insteps = [e for e in steps if e in ls.events]
@@ -42,6 +43,8 @@ def run_chain_loop(ctx, pfx, A, ev, chain0, nc, nd, sp, inlined_chain=None):
               found='%d step call(s) in the loop; conditions %s' % (len(insteps), [show(c) for e in insteps for c in e.pc]), sp=ls.sp,
               why='each iteration performs exactly one transition of the chain itself')
     outs = [k for k in ls.lh if k not in chain_keys]
+    if out_pick is not None:
+        outs = [k for k in outs if out_pick(ls, k)]
     if len(outs) != 1 or stepres is None:
         ctx.unknown(pfx + '.guard_row_value', A, 'store', why='expected one output buffer carried through the loop (found %d)' % len(outs), sp=ls.sp)
         ctx.unknown(pfx + '.alloc', A, 'alloc', why='output buffer not identified', sp=ls.sp)
@@ -53,7 +56,7 @@ def run_chain_loop(ctx, pfx, A, ev, chain0, nc, nd, sp, inlined_chain=None):
     exps = [T.ite(T.cmp('ge', it, nd), T.app('upd', lh, row, v), lh) for v in vals]
     ctx.eq(pfx + '.guard_row_value', A, 'store', ls.next[ok_], exps[0], alts=exps[1:], sp=ls.sp,
            why='store iff k >= n_discard, at row k - n_discard, the state returned by this iteration\'s step => row r holds the state after n_discard + r + 1 transitions')
-    dimt = [T.app('len', T.app('core::MarkovChain::current_state', chain0))]
+    dimt = dim_terms or [T.app('len', T.app('core::MarkovChain::current_state', chain0))]
     ctx.eq(pfx + '.alloc', A, 'alloc', ls.init[ok_], T.app('zeros', T.tup(nc, dimt[0])), sp=sp, why='output has n_collect rows of the state dimension')
     return ls, ok_
 
